@@ -69,7 +69,7 @@ def cases(ctx, tier):
     T = getattr(ctx, 'thr', None) or gen_tables.main()[0]
     quick = tier == 'quick'
     out = []
-    for n in list(range(0, 401)) + [500, 1000, 1023, 1024, 1025, 4095, 4096, 10000, 65535, 65536] + ([] if quick else [100000, 1 << 20]):
+    for n in list(range(0, 401)) + [500, 1000, 1023, 1024, 1025, 4095, 4096, 10000, 65535, 65536] + ([] if quick else [100000, 1 << 17]):
         out.append(('mpz_fib2_ui %x' % n, 'fib'))
         out.append(('mpz_lucnum2_ui %x' % n, 'lucnum'))
     dsc = T.get('FAC_DSC_THRESHOLD', 898); odd = T.get('FAC_ODD_THRESHOLD', 0)
